@@ -166,4 +166,25 @@ theorem C05_switch_failure_is_never_masked (P : Program) (val : Node → Option 
   have : val P.g.output = some v := outcome_value_sw hsw ((safe_reach_sw hsw hsol h).data.out (.value v) ho)
   rw [hnone] at this; cases this
 
+/-! ### Pipelines with switches and one-ofs: the error of a failed run has a cause -/
+
+/-- **C05 (switch / one-of pipelines)**: an error outcome is the final failure of a node on its dataflow arguments, a
+collaborator's exception, the no-case error of a switch that selects nothing, `OneOfDoesNotHaveResultError` of a one-of
+none of whose candidates has a value, or a setup error -/
+theorem C05_oneof_error_has_cause (P : Program) (val : Node → Option Val) (hone : OneP P) (hsol : SolutionOne P val)
+    (s : St) (h : Reach P s) (e : Exc) (ho : s.outcome = some (.error e) ∨ s.outcome = some (.raised e)) :
+    ErrCause P val e := by
+  rcases ho with ho | ho
+  · exact (safe_reach hone hsol h).data.out _ ho
+  · exact (safe_reach hone hsol h).data.out _ ho
+
+/-- a failure contained by a one-of never surfaces as a value: no value (other than, at worst, an exception object) is
+returned when the output has none -/
+theorem C05_oneof_failure_is_never_masked (P : Program) (val : Node → Option Val) (hone : OneP P)
+    (hsol : SolutionOne P val) (s : St) (h : Reach P s) (hnone : val P.g.output = none) (v : Val)
+    (hne : v.isExc = false) : s.outcome ≠ some (.value v) := by
+  intro ho
+  have := ((safe_reach hone hsol h).data.out (.value v) ho).1 hne
+  rw [hnone] at this; cases this
+
 end MLPE.Eng
